@@ -978,9 +978,11 @@ Proof.
 Qed.
 
 Lemma aggr_batch_size_model len nc :
-  Z.to_nat (aggr_batch_size (Z.of_nat len) (Z.of_nat nc)) = (len / nc)%nat.
+  Z.to_nat (aggr_batch_size (Z.of_nat len) (Z.of_nat nc)) = Nat.max (len / nc) 1.
 Proof.
   unfold aggr_batch_size. cbv zeta beta. destruct nc as [|nc'].
   - change (Z.of_nat 0) with 0. destruct (Z.of_nat len); reflexivity.
-  - rewrite Z.quot_div_nonneg by lia. rewrite <- Nat2Z.inj_div. apply Nat2Z.id.
+  - rewrite Z.quot_div_nonneg by lia. rewrite <- Nat2Z.inj_div.
+    change (Z.max (Z.of_nat (len / S nc')) 1) with (Z.max (Z.of_nat (len / S nc')) (Z.of_nat 1)).
+    rewrite <- Nat2Z.inj_max. apply Nat2Z.id.
 Qed.
